@@ -342,15 +342,19 @@ def kw_strategy(name, first):
     if name == "unix_disabled":
         parts["marker"] = st.sampled_from(["!", "*", "!!", "*LK*", "x", ""])
     keys = sorted(parts)
+    costly = [k for k in keys if "rounds" in k]
+    structural = [k for k in keys if "rounds" not in k]
 
     @st.composite
     def s(draw):
         kw = {}
         if first and cheap and "rounds" in h.setting_kwds:
             kw["rounds"] = draw(st.integers(*cheap))  # make the first child cheap to probe
-            ks = draw(st.lists(st.sampled_from([k for k in keys if "rounds" not in k] or ["salt_size"]), max_size=2, unique=True)) if len(keys) > 7 else []
+            ks = draw(st.lists(st.sampled_from(structural), max_size=2, unique=True)) if structural else []
         else:
-            ks = draw(st.lists(st.sampled_from(keys), min_size=1, max_size=3, unique=True)) if keys else []
+            # cost keywords and structural keywords (salt size, ident, variant, ...) are drawn separately so that neither crowds out the other
+            ks = draw(st.lists(st.sampled_from(costly), max_size=2, unique=True)) if costly else []
+            ks += draw(st.lists(st.sampled_from(structural), min_size=0 if ks else 1, max_size=2, unique=True)) if structural else []
         for k in ks:
             if k in parts:
                 kw[k] = draw(parts[k])
